@@ -122,6 +122,19 @@ Example C09_src_read_after_close :
     chunks_ok (trace s ++ [ERead 0 (D 1 0 9000%N) false 2048%N 2048%N]) = false.
 Proof. exact src_read_after_close. Qed.
 
+(* ---- no end of stream without a cause; exact-fit reads ---- *)
+(* Read takes the closed path (io.EOF without an idle timeout) only after Close has begun *)
+Theorem C09_eof_needs_close : forall g ts s s' c k,
+  run g init ts = Some s -> exec g s (ConnEof c) = Some s' -> get s c = Some k -> In (ERet c) (trace s).
+Proof. exact eof_needs_close. Qed.
+(* a datagram not longer than the caller's buffer is consumed entirely: no remainder is kept, so
+   the next Read waits for the next datagram *)
+Theorem C09_exact_fit_read_keeps_nothing : forall g s c k p q n,
+  panicked s = false -> get s c = Some k -> last k = None -> readq k = p :: q -> (size p <= n)%N ->
+  exists s' k', exec g s (ConnRead c n) = Some s' /\ get s' c = Some k' /\ last k' = None /\ readq k' = q /\
+    trace s' = trace s ++ [ERead c p true 0%N (size p)].
+Proof. exact exact_fit_clears. Qed.
+
 (* ---- loop_never_panics ---- *)
 
 (* any Close that never closes readCh (closure is signalled on a separate channel) *)
@@ -174,6 +187,8 @@ Theorem C09_accept_order : forall g ts s, run g init ts = Some s -> order_ok (tr
 Proof. exact order_ok_run. Qed.
 Theorem C09_accept_causal : forall g ts s, run g init ts = Some s -> causal_ok (trace s) = true.
 Proof. exact causal_ok_run. Qed.
+Theorem C09_accept_eof_cause : forall g ts s, run g init ts = Some s -> eofc_ok (trace s) = true.
+Proof. exact eofc_ok_run. Qed.
 Theorem C09_accept_fresh : forall g ts s,
   notify_identity g = true -> run g init ts = Some s -> fresh_ok (trace s) = true.
 Proof. exact fresh_ok_run. Qed.
@@ -213,6 +228,9 @@ Print Assumptions C09_read_after_close_no_bytes.
 Print Assumptions C09_read_after_close_eof.
 Print Assumptions C09_src_close_releases_first.
 Print Assumptions C09_src_read_after_close.
+Print Assumptions C09_eof_needs_close.
+Print Assumptions C09_exact_fit_read_keeps_nothing.
+Print Assumptions C09_accept_eof_cause.
 Print Assumptions C09_loop_never_panics_fixed.
 Print Assumptions C09_loop_never_panics.
 Print Assumptions C09_loop_never_panics_refuted.
